@@ -112,6 +112,38 @@ impl KnowledgeGraphsMetadata {
     }
 }
 
+/// Replace `path` with `bytes` so that a crash at any point leaves either the old or the
+/// new content: write a sibling temp file, sync it, rename it over `path`, sync the directory.
+pub fn write_file_atomic(path: &Path, bytes: &[u8]) -> std::io::Result<()> {
+    use std::io::Write;
+    let unique = format!(
+        "{:?}.{}",
+        std::thread::current().id(),
+        std::time::SystemTime::now()
+            .duration_since(std::time::UNIX_EPOCH)
+            .unwrap_or_default()
+            .as_nanos()
+    );
+    let tmp_name = format!(
+        "{}.{unique}.tmp",
+        path.file_name().unwrap_or_default().to_string_lossy()
+    );
+    let tmp_path = path.with_file_name(tmp_name);
+    let mut file = File::create(&tmp_path)?;
+    file.write_all(bytes)?;
+    file.sync_all()?;
+    if let Err(e) = fs::rename(&tmp_path, path) {
+        let _ = fs::remove_file(&tmp_path);
+        return Err(e);
+    }
+    if let Some(parent) = path.parent() {
+        if let Ok(dir) = File::open(parent) {
+            let _ = dir.sync_all();
+        }
+    }
+    Ok(())
+}
+
 impl Default for KnowledgeGraphsMetadata {
     fn default() -> Self {
         Self::new()
